@@ -247,22 +247,104 @@ fn in_string_map(src: &str) -> Vec<bool> {
     v
 }
 
+/// Per byte offset: is this position code *inside an interpolation hole* of a string literal?
+/// Delimiter- and hole-aware (unlike the formatter's scanner): `"`/`"""` literals with backslash
+/// escapes, `{`…`}` holes with brace depth, nested literals inside holes, `//` comments in code.
+/// `None` when the text does not scan to a clean end (e.g. a `{` inside a *pattern* string, where it
+/// is literal) — then nothing is claimed about holes.
+fn in_hole_map(src: &str) -> Option<Vec<bool>> {
+    #[derive(Clone, Copy, PartialEq)]
+    enum F {
+        Single,
+        Multi,
+        Hole(usize),
+    }
+    let cs: Vec<(usize, char)> = src.char_indices().collect();
+    let mut v = vec![false; src.len() + 1];
+    let mut stack: Vec<F> = vec![];
+    let mut k = 0;
+    let at = |k: usize, s: &str| -> bool { src[cs[k].0..].starts_with(s) };
+    while k < cs.len() {
+        let (i, c) = cs[k];
+        let in_code = !matches!(stack.last(), Some(F::Single) | Some(F::Multi));
+        v[i] = in_code && !stack.is_empty();
+        match stack.last().copied() {
+            Some(F::Single) | Some(F::Multi) => {
+                let multi = stack.last() == Some(&F::Multi);
+                if c == '\\' {
+                    k += 2;
+                    continue;
+                } else if c == '{' {
+                    stack.push(F::Hole(1));
+                } else if c == '"' {
+                    if !multi {
+                        stack.pop();
+                    } else if at(k, "\"\"\"") {
+                        stack.pop();
+                        k += 3;
+                        continue;
+                    }
+                }
+            }
+            _ => {
+                // code (top level or inside a hole)
+                if c == '/' && at(k, "//") {
+                    while k < cs.len() && cs[k].1 != '\n' {
+                        v[cs[k].0] = !stack.is_empty();
+                        k += 1;
+                    }
+                    continue;
+                } else if c == '"' {
+                    if at(k, "\"\"\"") {
+                        stack.push(F::Multi);
+                        k += 3;
+                        continue;
+                    }
+                    stack.push(F::Single);
+                } else if let Some(F::Hole(d)) = stack.last().copied() {
+                    if c == '{' {
+                        *stack.last_mut().unwrap() = F::Hole(d + 1);
+                    } else if c == '}' {
+                        if d == 1 {
+                            stack.pop();
+                        } else {
+                            *stack.last_mut().unwrap() = F::Hole(d - 1);
+                        }
+                    }
+                }
+            }
+        }
+        k += 1;
+    }
+    if stack.is_empty() { Some(v) } else { None }
+}
+
 pub struct CommentTok {
     pub pos: usize,
     pub end: usize,
     pub text: String,
+    /// inside a string literal in the eyes of the formatter's quote-toggling scanner
     pub in_string: bool,
+    /// really inside an interpolation hole
+    pub in_hole: bool,
 }
 
 pub fn comment_tokens(src: &str, ast: &Program) -> Vec<CommentTok> {
     let ism = in_string_map(src);
+    let ihm = in_hole_map(src);
     let mut out = vec![];
     let bytes = src.as_bytes();
     let mut i = 0;
     while i + 1 < bytes.len() {
         if bytes[i] == b'/' && bytes[i + 1] == b'/' && is_comment_start(src, i, ast) {
             let end = src[i..].find(['\n', '\r']).map(|e| i + e).unwrap_or(src.len());
-            out.push(CommentTok { pos: i, end, text: src[i..end].trim_end().to_string(), in_string: ism[i] });
+            out.push(CommentTok {
+                pos: i,
+                end,
+                text: src[i..end].trim_end().to_string(),
+                in_string: ism[i],
+                in_hole: ihm.as_ref().is_some_and(|m| m[i]),
+            });
             i = end;
         } else {
             i += 1;
@@ -363,9 +445,15 @@ fn comment_cause(src: &str, ast: &Program, out1: &str, ast2: &Program) -> String
         // (as many in-string occurrences of the text as copies of it were lost)
         let all_in_holes = pool.iter().all(|lost| {
             let copies = pool.iter().filter(|x| *x == lost).count();
-            toks.iter().filter(|t| &t.text == lost && t.in_string).count() >= copies
+            toks.iter().filter(|t| &t.text == lost && t.in_hole).count() >= copies
         });
-        return if all_in_holes { "lost-in-string-hole".into() } else { "lost".into() };
+        if all_in_holes {
+            return "lost-in-string-hole".into();
+        }
+        // not in a hole, but the formatter's scanner believes it is inside a string: its state is out
+        // of step with the real literal structure
+        let scanner_confused = pool.iter().all(|lost| toks.iter().any(|t| &t.text == lost && t.in_string && !t.in_hole));
+        return if scanner_confused { "lost-scanner-out-of-step".into() } else { "lost".into() };
     }
     if merged { "merged".into() } else { "reordered".into() }
 }
